@@ -97,9 +97,34 @@ pub(crate) struct InputFile {
 pub(crate) struct FileData {
     bytes: FileBytes,
 
-    /// The modification timestamp of the input file just before we opened it. We expect our input
-    /// files not to change while we're running.
+    /// What identified the input file just before we mapped it. We expect our input files not to
+    /// change while we're running.
+    identity: FileIdentity,
+}
+
+/// Enough of a file's metadata to notice that it was modified or that its path now names a
+/// different file. The modification time alone isn't enough, since a file that gets copied over an
+/// input with its timestamps preserved (`cp -p`, `rsync -t`) has the same modification time.
+#[derive(Debug, PartialEq, Eq)]
+struct FileIdentity {
     modification_time: std::time::SystemTime,
+    len: u64,
+    #[cfg(unix)]
+    device_and_inode: (u64, u64),
+}
+
+impl FileIdentity {
+    fn from_metadata(metadata: &std::fs::Metadata) -> std::io::Result<Self> {
+        Ok(FileIdentity {
+            modification_time: metadata.modified()?,
+            len: metadata.len(),
+            #[cfg(unix)]
+            device_and_inode: {
+                use std::os::unix::fs::MetadataExt as _;
+                (metadata.dev(), metadata.ino())
+            },
+        })
+    }
 }
 
 #[cfg(not(target_family = "wasm"))]
@@ -353,8 +378,8 @@ impl<'data> FileLoader<'data> {
         self.extract_all(&mut files_by_index, plugin)
     }
 
-    /// Checks that the modification timestamp on all our input files hasn't changed since we opened
-    /// them. If they were modified while we were running, then we may fail with a SIGBUS if we try
+    /// Checks that the modification timestamp, size and identity of all our input files haven't
+    /// changed since we opened them. If they were modified while we were running, then we may fail with a SIGBUS if we try
     /// to access part of the file that's no longer there, however if we don't, then we may have
     /// read inconsistent data from the changed object, so we want to fail the link.
     pub(crate) fn verify_inputs_unchanged(&self) -> Result {
@@ -369,14 +394,14 @@ impl<'data> FileLoader<'data> {
                 format!("Failed to read metadata for `{}`", file.filename.display())
             })?;
 
-            let new_modified = metadata.modified().with_context(|| {
+            let new_identity = FileIdentity::from_metadata(&metadata).with_context(|| {
                 format!(
                     "Failed to get modification time for `{}`",
                     file.filename.display()
                 )
             })?;
 
-            if file_data.modification_time != new_modified {
+            if file_data.identity != new_identity {
                 bail!(
                     "The file `{}` was changed while we were running",
                     file.filename.display()
@@ -827,9 +852,9 @@ impl FileData {
         let mut file = std::fs::File::open(path)
             .with_context(|| format!("Failed to open input file `{}`", path.display()))?;
 
-        let modification_time = file
+        let identity = file
             .metadata()
-            .and_then(|meta| meta.modified())
+            .and_then(|meta| FileIdentity::from_metadata(&meta))
             .with_context(|| {
                 format!("Failed to read file modification time `{}`", path.display())
             })?;
@@ -837,7 +862,7 @@ impl FileData {
         Ok((
             FileData {
                 bytes: FileBytes::read(&mut file, path, prepopulate_maps)?,
-                modification_time,
+                identity,
             },
             file,
         ))
